@@ -1,6 +1,8 @@
 //! Independent reference models ("boring on purpose"). No dependency on the subject.
 pub mod alu;
 pub mod asm;
+pub mod board;
+pub mod bus;
 pub mod isa;
 pub mod mrasm;
 pub mod peg;
